@@ -20,7 +20,8 @@ ASSUMPTIONS = ["charge groups compared up to one constant per block instance",
 CASE_TIMEOUT = 60
 WALL = {"quick": 900, "thorough": 7200}
 REQUIRED = {"residues_checked": 200, "block_interactions_checked": 200, "multi_residue_cases": 5,
-            "offset_cases": 20, "mods_cases": 5, "library_cases": 100, "default_termini_atoms": 10}
+            "offset_cases": 20, "mods_cases": 5, "library_cases": 100, "default_termini_atoms": 10, "dsdna_cases": 50,
+            "dsdna_cases_ids_not_from_one": 15}
 
 
 def plan(tier, seed):
@@ -30,6 +31,7 @@ def plan(tier, seed):
     cids += [["dup", i] for i in range(n // 20)]
     cids += [["alias", i] for i in range(n // 10)]
     cids += [["library", i] for i in range(n // 8)]
+    cids += [["dsdna", i] for i in range(n // 30)]
     return cids
 
 
@@ -42,6 +44,8 @@ def run_case(cid, rng, workdir):
     stratum = cid[0]
     if stratum == "mods":
         return run_mods(cid, rng, workdir, res)
+    if stratum == "dsdna":
+        return run_dsdna(cid, rng, workdir, res)
     kw = {"link_opts": {"p_remove": 0.08, "p_replace": 0.15}}      # links that remove / retag atoms are part of the quantifier
     if stratum == "dup":
         kw = {"layouts": ["ff", "itp+ff"]}
@@ -302,4 +306,67 @@ def run_mods(cid, rng, workdir, res):
                                   "[%s run] atom %s of residue %s%d: %s is %r, expected %r (modifications %s)" %
                                   (tag, a["name"], nd["resname"], nd["resid"], k, got, v, case["descr"]["mods"]),
                                   PCm.witness(case))
+    return res
+
+
+def run_dsdna(cid, rng, workdir, res):
+    """gen_params -dsdna on a strand given as a residue graph whose ids need not start at 1: the molecule holds the 2n
+    residues once each, in id order, numbered by their ids, each a verbatim copy of its block"""
+    import json
+    from pathlib import Path
+    import networkx as nx
+    from networkx.readwrite import json_graph
+    from ..monitors import pipeline
+    from ..oracle import itp_min
+    from .C19 import comp_name, ONE
+    names = ["D" + b + s_ for b in "ACGT" for s_ in ("", "5", "3")]
+    natoms = {nm: rng.randint(1, 3) for nm in names}
+    ff = []
+    for nm in names:
+        ff += ["[ moleculetype ]", "%s 1" % nm, "[ atoms ]"]
+        for j in range(natoms[nm]):
+            ff.append("%d P%d 1 %s %s %d 0.0 72.0" % (j + 1, j + 1, nm, "BB" if j == 0 else "S%d" % j, j + 1))
+        if natoms[nm] > 1:
+            ff += ["[ bonds ]"] + ["BB S%d 1 0.3 1000" % j for j in range(1, natoms[nm])]
+    ff += ["[ link ]", 'resname "%s"' % "|".join(names), "[ bonds ]", "BB +BB 1 0.35 1000"]
+    (Path(workdir) / "dna.ff").write_text("\n".join(ff) + "\n")
+    n = rng.randint(2, 12)
+    seq = "".join(rng.choice("ACGT") for _ in range(n))
+    first = [ONE[c] for c in seq]
+    first[0] += "5"
+    first[-1] += "3"
+    roff = rng.choice([0, 0, 4, 10])
+    g = nx.Graph()
+    for i in range(n):
+        g.add_node(i, resname=first[i], resid=i + 1 + roff)
+    g.add_edges_from((i, i + 1) for i in range(n - 1))
+    json.dump(json_graph.node_link_data(g), open(Path(workdir) / "d.json", "w"))
+    out = Path(workdir) / "ds.itp"
+    run = pipeline.run_gen_params(name="DS", outpath=out, inpath=[Path(workdir) / "dna.ff"], lib=None, seq=None,
+                                  seq_file=Path(workdir) / "d.json", dsdna=True)
+    res["sig"] = sig_of([seq, roff, sorted(natoms.items())])
+    res["sample"] = {"sequence": seq, "first_residue_id": roff + 1, "stratum": "gen_params -dsdna"}
+    res["nontrivial"] = True
+    w = {"sequence": seq, "first_residue_id": roff + 1}
+    if run["status"] != "ok":
+        res["status"] = "rejected"
+        violation(res, "rejects-valid-input:dsdna:%s" % run.get("exc_type"), run["error"], w)
+        return res
+    bump(res, "dsdna_cases")
+    if roff:
+        bump(res, "dsdna_cases_ids_not_from_one")
+    obs = itp_min.read_itp(str(out))
+    allnames = first + [comp_name(first[n - k]) for k in range(1, n + 1)]
+    want = []
+    for k, nm in enumerate(allnames):
+        for j in range(natoms[nm]):
+            want.append((roff + k + 1, nm, "BB" if j == 0 else "S%d" % j, "P%d" % (j + 1)))
+    got = [(a["resid"], a["resname"], a["name"], a["atype"]) for a in obs["atoms"]]
+    bump(res, "residues_checked", 2 * n)
+    bump(res, "atoms_checked", len(got))
+    if got != want:
+        k = next((i for i in range(min(len(got), len(want))) if got[i] != want[i]), min(len(got), len(want)))
+        violation(res, "residue-sequence:dsdna", "atom %d of the written molecule is %s, the strand and its complement in residue-id "
+                  "order give %s (%d atoms written, %d expected)" % (k + 1, got[k] if k < len(got) else None,
+                                                                    want[k] if k < len(want) else None, len(got), len(want)), w)
     return res
